@@ -27,20 +27,27 @@ package bluemonday
 //@   modifies nothing
 //@   ensures result0 != nil && fresh(result0)
 //@   ensures result1 <==> (exists r *regexp.Regexp :: r in p.elsMatchingAndAttrs && rmatch(r, elementName))
+//@   ensures[C02] apsRulesOK(p, elementName, result0)
 //@   loop 0 "for regex, attrs := range p.elsMatchingAndAttrs"
 //@     invariant matched <==> (exists r *regexp.Regexp :: $visited(r) && rmatch(r, elementName))
+//@     invariant forall k string :: k in aps ==> arr(aps[k]) == nil || allocated(arr(aps[k]))
+//@     invariant[C02] apsRulesOKE(p, elementName, aps)
 //@   loop 1 "for k, v := range attrs"
+//@     invariant forall k string :: k in aps ==> arr(aps[k]) == nil || allocated(arr(aps[k]))
+//@     invariant[C02] apsRulesOKE(p, elementName, aps)
 
 //@ func (*bluemonday.Policy).sanitize
-//@   requires wfp(p) && r != nil && w != nil
+//@   requires wfp(p) && p.initialized && r != nil && w != nil
 //@   requires[C16] !outFailed
-//@   modifies ghost outFailed, outN, outLast, outCount, tzCur, tzPrev, tzErr
-//@   modifies r :: r == p && !p.initialized
+//@   modifies ghost outFailed, outN, outLast, outCount, tzCur, tzPrev, tzErr, sanEl, sanRes
+//@   modifies nothing
 //@   ensures[C16] outFailed ==> result != nil
 //@   ensures[C16] result == nil ==> tzErr == io.EOF
 //@   at-call (io.StringWriter).WriteString(w, s)
 //@     assert[C01] emitC01(p, token, s) || (p.allowUnsafe && token.Type == 1 && s == token.Data && isScriptStyle(mostRecentlyStartedToken) && elAllowed(p, mostRecentlyStartedToken))
 //@     assert[C05] emitC05(p, token, tzPrev, s)
+//@   at-call (io.StringWriter).WriteString(w, s) where s from (html.Token).String
+//@     assert[C02] (token.Type == 2 || token.Type == 4) ==> (len(token.Attr) == 0 && bareOK(p, token.Data)) || (len(token.Attr) > 0 && sanEl == token.Data && sanRes == token.Attr)
 //@   loop 0 "for {"
 //@     invariant wfp(p) && p.initialized
 //@     invariant skipClosingTag <==> len(closingTagToSkipStack) > 0
@@ -60,27 +67,27 @@ package bluemonday
 //@   ensures outN == old(outN) + 1 && outLast == s && outCount == old(outCount) + 1
 
 //@ func (*bluemonday.Policy).sanitizeWithBuff
-//@   requires wfp(p) && r != nil
+//@   requires wfp(p) && p.initialized && r != nil
 //@   requires[C16] !outFailed
-//@   modifies ghost outFailed, outN, outLast, outCount, tzCur, tzPrev, tzErr
-//@   modifies r :: r == p && !p.initialized
+//@   modifies ghost outFailed, outN, outLast, outCount, tzCur, tzPrev, tzErr, sanEl, sanRes
+//@   modifies nothing
 //@   ensures result != nil && fresh(result)
 //@   ensures[C16] tzErr != io.EOF ==> bufEmpty(result)
 //@   ensures[C16] outFailed ==> bufEmpty(result)
 
 //@ func (*bluemonday.Policy).SanitizeReader
-//@   requires wfp(p) && r != nil
+//@   requires wfp(p) && p.initialized && r != nil
 //@   requires[C16] !outFailed
-//@   modifies ghost outFailed, outN, outLast, outCount, tzCur, tzPrev, tzErr
-//@   modifies r :: r == p && !p.initialized
+//@   modifies ghost outFailed, outN, outLast, outCount, tzCur, tzPrev, tzErr, sanEl, sanRes
+//@   modifies nothing
 //@   ensures result != nil && fresh(result)
 //@   ensures[C16] tzErr != io.EOF ==> bufEmpty(result)
 
 //@ func (*bluemonday.Policy).SanitizeReaderToWriter
-//@   requires wfp(p) && r != nil && w != nil
+//@   requires wfp(p) && p.initialized && r != nil && w != nil
 //@   requires[C16] !outFailed
-//@   modifies ghost outFailed, outN, outLast, outCount, tzCur, tzPrev, tzErr
-//@   modifies r :: r == p && !p.initialized
+//@   modifies ghost outFailed, outN, outLast, outCount, tzCur, tzPrev, tzErr, sanEl, sanRes
+//@   modifies nothing
 //@   ensures[C16] outFailed ==> result != nil
 //@   ensures[C16] result == nil ==> tzErr == io.EOF
 
@@ -98,6 +105,8 @@ package bluemonday
 //@   requires wfp(p) && p.initialized
 //@   requires[C02] apsFor(p, elementName, aps)
 //@   modifies nothing
+//@   sets sanEl = elementName
+//@   sets sanRes = result
 //@   ensures[C02] attrsGood(p, elementName, result)
 //@   loop 1 "for _, htmlAttr := range attrs"
 //@     invariant[C02] attrsAdm(p, elementName, cleanAttrs)
